@@ -53,6 +53,7 @@ def run(ctx: Ctx):
 
     dependency_footprints(ctx)
     range_collapse(ctx)
+    nub_table_base(ctx)
     from .common import rebuild_forwards_settings
 
     rebuild_forwards_settings(ctx, "rebuild-settings", "cube.py", "Cube", ("mask_size",))
@@ -426,3 +427,22 @@ def range_collapse(ctx: Ctx):
         else:
             ctx.ob("range.exact", where, f"{reductions} min/max reductions, none over a filtered subset", "min / max over all the bases", True if reductions else None)
     ctx.count("base ranges checked", n)
+
+
+def nub_table_base(ctx: Ctx):
+    """The 0-D partition of a numeric-measure response (a mean and nothing else) reports a table base as well: the number of
+    respondents behind the mean (the response's unweighted count), not the mean."""
+    ci = ctx.repo.cls("scalar.py", "MeansScalar")
+    where = "scalar.py::MeansScalar.table_base"
+    if ctx.repo.lookup(ci, "table_base") is None:
+        ctx.undecided("nub-table-base", where, "member not found", "the unweighted count")
+        return
+    e = expand(ctx.repo, ci, "table_base")
+    reads = sorted({n.attr for n in ast.walk(e) if isinstance(n, ast.Attribute) and isinstance(n.value, ast.Name) and n.value.id == "self"})
+    if "_means" in reads and "_unweighted_counts" not in reads:
+        ctx.violated("nub-table-base", where, f"{u(e)}: the table base of the 0-D partition IS the mean", "derived from self._unweighted_counts",
+                     "table_base of a 0-D mean cube is 49.095 (the mean) where 1000 respondents were counted")
+    elif "_unweighted_counts" in reads and "_means" not in reads:
+        ctx.held("nub-table-base", where, u(e), "derived from the unweighted count")
+    else:
+        ctx.undecided("nub-table-base", where, u(e)[:100], "derived from self._unweighted_counts")
